@@ -317,9 +317,9 @@ package locate
 //@ func (*RegionRequestSender) onRegionError
 //@   prop C10
 //@   may-panic
-//@   requires regionErr != nil && s.Stats == nil
+//@   requires regionErr != nil
 //@   opaque-callee onNotLeader onRegionNotFound onServerIsBusy OnRegionEpochNotMatch UpdateBucketsIfNeeded markStoreNeedCheck InvalidateCachedRegion InvalidateCachedRegionWithReason onFlashbackInProgress onDataIsNotReady onReadIndexNotReady onMaxTimestampNotSynced invalidateRegion SetCtx SpanFromContext
 //@   ensures stalecmd: regionErr.UndeterminedResult == nil && regionErr.NotLeader == nil && regionErr.DiskFull == nil && regionErr.RecoveryInProgress == nil && regionErr.IsWitness == nil &&
 //@       regionErr.FlashbackInProgress == nil && regionErr.FlashbackNotPrepared == nil && regionErr.RegionNotFound == nil && regionErr.KeyNotInRegion == nil && regionErr.EpochNotMatch == nil &&
-//@       regionErr.BucketVersionNotMatch == nil && regionErr.ServerIsBusy == nil && regionErr.StaleCommand != nil && s.replicaSelector == nil && shouldRetry && err == nil ==>
+//@       regionErr.BucketVersionNotMatch == nil && regionErr.ServerIsBusy == nil && regionErr.StaleCommand != nil && s.replicaSelector == nil && old(s.Stats) == nil && shouldRetry && err == nil ==>
 //@       bo.backoffTimes[staleCmdKind()] == old(bo.backoffTimes[staleCmdKind()]) + 1
